@@ -304,6 +304,11 @@ JudgeOut judge(const json &plan)
 		return out;
 	}
 	out.k.add("texts");
+	for (auto &c : bo->cbs)
+		if (c.find("MISMATCH") != std::string::npos) {
+			out.viol.push_back({"callback-context", "a callback of the accepted parse was handed the wrong context: " + c.substr(0, 300), clean});
+			return out;
+		}
 	std::vector<Obs> obs = observed_events(*bo);
 	out.k.add("step.baseline_invocations", obs.size());
 	// ---- history check on the baseline
